@@ -2705,9 +2705,12 @@ impl<'a> AstResolver<'a> {
         // The output is allowed to import a subset of the world's imports
         checker.invert();
         for (name, item_kind, import_node) in state.graph.imports() {
-            let expected = implicit_imported_interfaces
+            // An explicit import of the world takes precedence over the view of
+            // the same interface that is implied by a use.
+            let expected = world
+                .imports
                 .get(name)
-                .or_else(|| world.imports.get(name))
+                .or_else(|| implicit_imported_interfaces.get(name))
                 .ok_or_else(|| Error::ImportNotInTarget {
                     name: name.to_owned(),
                     world: path.string.to_owned(),
